@@ -30,19 +30,14 @@ def rows : List Row := [
   ⟨"F03g", "AssertionError", "xpath1/_xpath1_functions.py:evaluate__ceiling_and_floor_functions", ["floor", "ceiling"], 0⟩,
   ⟨"F03g", "AssertionError", "xpath1/_xpath1_functions.py:evaluate__round", ["round"], 0⟩,
   ⟨"F03g", "AssertionError", "xpath30/_xpath30_functions.py:__call__", ["function"], 0⟩,
-  ⟨"F03g", "AssertionError", "xpath_tokens/tokens.py:nud", ["Q{", "{"], 0⟩,
-  ⟨"F03g", "AttributeError", "collations.py:__init__", ["compare"], 0⟩,
   ⟨"F03g", "TypeError", "xpath2/_xpath2_functions.py:evaluate__years_from_duration", ["years-from-duration"], 0⟩,
   ⟨"F03g", "AttributeError", "xpath_tokens/tokens.py:led", ["NOTATION"], 0⟩,
   ⟨"F03g", "IndexError", "xpath_tokens/base.py:get_results", ["array"], 0⟩,
-  ⟨"F03g", "TypeError", "datatypes/uri.py:__init__", ["uri-collection"], 0⟩,
-  ⟨"F03g", "TypeError", "xpath30/_xpath30_functions.py:evaluate__atan2", ["atan2"], 0⟩,
   ⟨"F03g", "TypeError", "xpath30/xpath30_helpers.py:int_to_alphabetic", ["format-integer"], 0⟩,
   ⟨"F03g", "ValueError", "datatypes/qname.py:__init__", ["function-name", "#"], 0⟩,
   ⟨"F03g", "ElementPathKeyError", "sequence_types.py:is_instance", ["element"], 0⟩,
   ⟨"F03g", "ValueError", "helpers.py:get_double", ["floor", "ceiling", "untypedAtomic"], 0⟩,
   ⟨"F03g", "ValueError", "namespaces.py:get_expanded_name", ["instance", "castable", "cast", "treat"], 0⟩,
-  ⟨"F03g", "TypeError", "collations.py:__init__", ["compare"], 0⟩,
   ⟨"F03g", "TypeError", "serialization.py:serialize_to_xml", ["serialize"], 0⟩,
   ⟨"F03g", "AssertionError", "xpath2/_xpath2_constructors.py:evaluate__datetime_stamp_type", ["dateTimeStamp"], 0⟩,
   ⟨"F03g", "IndexError", "xpath30/xpath30_helpers.py:format_digits", ["format-integer"], 0⟩,
@@ -52,13 +47,8 @@ def rows : List Row := [
   ⟨"F03g", "TypeError", "xpath31/_xpath31_functions.py:evaluate__array_subarray", ["subarray"], 0⟩,
   -- F03h: numeric / temporal overflow and runaway computations are not caught
   ⟨"F03h", "OverflowError", "xpath2/_xpath2_operators.py:evaluate__range_expression", ["to"], 0⟩,
-  ⟨"F03h", "OverflowError", "xpath30/_xpath30_functions.py:evaluate__exp", ["exp"], 0⟩,
-  ⟨"F03h", "OverflowError", "xpath30/_xpath30_functions.py:evaluate__pow", ["pow"], 0⟩,
   ⟨"F03h", "Hang", "xpath30/_xpath30_functions.py:evaluate__exp10", ["exp10"], 0⟩,
   ⟨"F03h", "InvalidOperation", "datatypes/datetime.py:__mul__", ["implicit-timezone"], 0⟩,
-  ⟨"F03h", "InvalidOperation", "xpath2/_xpath2_functions.py:evaluate__avg", ["avg"], 0⟩,
-  ⟨"F03h", "InvalidOperation", "xpath30/_xpath30_functions.py:evaluate__pow", ["pow"], 0⟩,
-  ⟨"F03h", "Overflow", "xpath30/_xpath30_functions.py:evaluate__pow", ["pow"], 0⟩,
   ⟨"F03h", "OverflowError", "xpath30/xpath30_helpers.py:roman_num", ["format-integer"], 0⟩,
   ⟨"F03h", "MemoryError", "xpath30/xpath30_helpers.py:roman_num", ["format-integer"], 0⟩,
   ⟨"F03h", "OverflowError", "datatypes/datetime.py:fromduration", ["dayTimeDuration"], 0⟩,
@@ -67,10 +57,6 @@ def rows : List Row := [
   ⟨"F03h", "Hang", "xpath30/_xpath30_functions.py:evaluate__pow", ["pow"], 0⟩,
   ⟨"F03h", "OverflowError", "datatypes/datetime.py:_compare_durations", ["dayTimeDuration"], 0⟩,
   ⟨"F03h", "Hang", "xpath2/_xpath2_functions.py:evaluate__round_half_to_even", ["round-half-to-even"], 0⟩,
-  -- F03i: a URI argument is handed to urllib without validation
-  ⟨"F03i", "InvalidURL", "xpath30/_xpath30_functions.py:evaluate__unparsed_text", ["unparsed-text", "unparsed-text-lines"], 0⟩,
-  ⟨"F03i", "InvalidURL", "xpath30/_xpath30_functions.py:evaluate__unparsed_text_available", ["unparsed-text-available"], 0⟩,
-  ⟨"F03i", "InvalidURL", "xpath31/_xpath31_functions.py:evaluate__parse_json_functions", ["json-doc"], 0⟩,
   -- F03j: xs:NOTATION used as a function item
   ⟨"F03j", "NotImplementedError", "xpath2/_xpath2_constructors.py:cast__notation_type", ["NOTATION"], 0⟩
 ]
